@@ -1071,11 +1071,32 @@ func c17Guards(p *Prog, r *Report) {
 			env.Vars[recv] = &Val{Ptr: &Val{Fields: flds}}
 		}
 		item := &Val{Fields: map[string]*Val{"Count": intVal(count), "Path": strVal("/r"), "Root": strVal("/r"), "Name": strVal("old"), "Free": intVal(1)}}
+		// decide-then-act: the loop ranges over what a pure planner of the package selected
+		// (for _, p := range emptyRoots(roots) / for _, pos := range overfull(dirs, u.maxCount)): the planner's own
+		// loop body is run on the element first; an element it does not select is not acted on
+		var planned *Val
+		if rs, isRange := loop.node.(*ast.RangeStmt); isRange {
+			if call, isCall := ast.Unparen(rs.X).(*ast.CallExpr); isCall {
+				if h := p.staticCallee(fi.Pkg, call); h != nil && h.Pkg == fi.Pkg && h.Decl.Body != nil {
+					sel, val, perr := c17RunPlanner(p, h, call, env, item)
+					if perr != nil {
+						return false, false, false, false, false, perr
+					}
+					if !sel {
+						return false, false, false, false, true, nil
+					}
+					planned = val
+				}
+			}
+		}
 		env.Hook = func(env *Env, e ast.Expr) (*Val, bool) {
 			if env.Pkg != fi.Pkg {
 				return nil, false
 			}
 			if id, ok := e.(*ast.Ident); ok && valObj != nil && objOf(info, id) == valObj {
+				if planned != nil {
+					return planned, true
+				}
 				return item, true
 			}
 			if id, ok := e.(*ast.Ident); ok {
@@ -1455,4 +1476,86 @@ func countThenPopLoop(info *types.Info, scopes []*ast.BlockStmt, walk *ast.Range
 		})
 	}
 	return res
+}
+
+// c17RunPlanner runs the selection loop of a planner function (one loop over its first parameter that appends what
+// it selects to its result) on one abstract element: was the element selected, and what was recorded for it.
+func c17RunPlanner(p *Prog, h *FuncInfo, call *ast.CallExpr, outer *Env, item *Val) (selected bool, val *Val, err error) {
+	info := h.Pkg.TypesInfo
+	params := paramObjs(h)
+	if params[0] == nil {
+		return false, nil, fmt.Errorf("planner %s without a collection parameter", h.Key)
+	}
+	var body *ast.BlockStmt
+	var valObj, keyObj types.Object
+	walkNoLit(h.Decl.Body, func(x ast.Node) bool {
+		switch l := x.(type) {
+		case *ast.RangeStmt:
+			if objOf(info, l.X) == params[0] && body == nil {
+				body = l.Body
+				if l.Value != nil {
+					valObj = objOf(info, l.Value)
+				}
+				if l.Key != nil {
+					keyObj = objOf(info, l.Key)
+				}
+			}
+		case *ast.ForStmt:
+			if body == nil {
+				body = l.Body
+				if as, ok := l.Init.(*ast.AssignStmt); ok && len(as.Lhs) == 1 {
+					keyObj = objOf(info, as.Lhs[0])
+				}
+			}
+		}
+		return true
+	})
+	if body == nil {
+		return false, nil, fmt.Errorf("planner %s: no loop over its collection", h.Key)
+	}
+	env := &Env{P: p, Pkg: h.Pkg, Vars: map[types.Object]*Val{}}
+	args := argExprs(call, h)
+	for i, po := range params {
+		if po == nil || i <= 0 || args[i] == nil {
+			continue
+		}
+		if v, verr := outer.Eval(args[i]); verr == nil && v != nil {
+			env.Vars[po] = v
+		}
+	}
+	env.Hook = func(e2 *Env, e ast.Expr) (*Val, bool) {
+		if e2.Pkg != h.Pkg {
+			return nil, false
+		}
+		if id, ok := e.(*ast.Ident); ok {
+			switch objOf(info, id) {
+			case valObj:
+				if valObj != nil {
+					return item, true
+				}
+			case keyObj:
+				if keyObj != nil {
+					return &Val{Tag: "index"}, true
+				}
+			}
+		}
+		if ix, ok := e.(*ast.IndexExpr); ok && objOf(info, ix.X) == params[0] {
+			return item, true
+		}
+		if c, ok := e.(*ast.CallExpr); ok {
+			if id, isId := c.Fun.(*ast.Ident); isId && id.Name == "append" && len(c.Args) == 2 {
+				selected = true
+				if v, verr := e2.Eval(c.Args[1]); verr == nil {
+					val = v
+				}
+				return &Val{Tag: "list"}, true
+			}
+		}
+		return nil, false
+	}
+	f := p.NewFlat(h.Pkg, body)
+	if _, _, werr := f.WalkPath(env); werr != nil {
+		return false, nil, werr
+	}
+	return selected, val, nil
 }
